@@ -143,8 +143,10 @@ theorem holds_partial (cfg : Cfg) (hg : cfg.goodIsland = true) : HoldsPartial cf
 
 /-! ### non-vacuity -/
 
-/-- the facts of the current tree -/
+/-- the facts of the tree before the clamp repair (`start` not clamped) -/
 def current : Cfg := ⟨true, true, 16, false, 2, false, false, 1, 1000⟩
+/-- the facts after it: only the separator finding is left -/
+def clamped : Cfg := { current with clampStart := true }
 /-- repaired facts -/
 def repaired : Cfg := { current with clampStart := true, rejectsSlash := true }
 
@@ -158,6 +160,11 @@ example : charsPerLevel current 2000 = 3 ∧ charsPerLevel current 1 = 2 ∧ cha
 /-- the shipped configuration: one level of 3 chars -/
 example : hashedLevels current 0xd24ec4f1a98c6e5b 1 1000 = some [[13, 2, 4]] := by decide
 example : (⟨[0x61], [0x62], [0x63]⟩ : Name).NoSlash := by decide
+/-- with `start` clamped the deep layout yields three full levels, one partial level and two empty ones
+    (which `filepath.Join` drops), and a one-digit hash no longer panics at depth 2 -/
+example : hashedLevels clamped 0xd24ec4f1a98c6e5b 6 70000 =
+    some [[13, 2, 4, 14, 12], [4, 15, 1, 10, 9], [8, 12, 6, 14, 5], [11], [], []] ∧
+    hashedLevels clamped 0xf 2 1 = some [[15], []] := by decide
 
 /-! ### witnesses for the code as it is -/
 
